@@ -182,6 +182,18 @@ struct Plan
 };
 static Plan PLAN;
 
+// under AddressSanitizer (about 20x slower) the large exhaustive families are sampled; the plain flavour of the same
+// harness (Eigen index assertions on, operator-argument validation, work bound, finiteness) covers every index
+static bool asan_skip(uint64_t idx)
+{
+#ifdef VF_ASAN
+    return idx % (PLAN.thorough ? 8 : 32) != 0;
+#else
+    (void) idx;
+    return false;
+#endif
+}
+
 static const SortRule SYM_RULES[5] = {SortRule::LargestMagn, SortRule::LargestAlge, SortRule::SmallestMagn, SortRule::SmallestAlge, SortRule::BothEnds};
 static const SortRule SYM_SORT[4] = {SortRule::LargestAlge, SortRule::LargestMagn, SortRule::SmallestAlge, SortRule::SmallestMagn};
 
@@ -375,11 +387,15 @@ int main(int argc, char** argv)
 #ifdef VF_ASAN
     PLAN.depth = cfg.thorough() ? 3 : 2;
 #endif
+#ifdef VF_ASAN
+    if (cfg.quick()) PLAN.sweep = false;  // quick asan: the history search only (the plain flavour runs the sweep)
+#endif
     if (const char* d = getenv("VERIF_DEPTH")) PLAN.depth = atoi(d);
     Runner R(PLAN.prop, cfg);
     const bool q = cfg.quick();
 
     R.run("sint3", sint_count(3, 3), [&](uint64_t idx, Local& L) {
+        if (asan_skip(idx)) { L.count("skipped_asan_sampling"); return; }
         run_real_matrix(sint_get(3, D3(), idx), "sint3:" + num(idx), idx, K_DENSE | K_SHIFT | (idx % 7 == 0 ? K_SPARSE | K_USER | K_SHIFT_SPARSE : 0), L, "sint3#" + num(idx));
     });
     R.run("struct", 3, [&](uint64_t w, Local& L) {
@@ -396,6 +412,7 @@ int main(int argc, char** argv)
         const int n = 6;
         const uint64_t nspec = uint64_t(lcat_count()) * qcat_count(n) * 6;
         R.run("spec6", nspec, [&](uint64_t idx, Local& L) {
+            if (asan_skip(idx * 4)) { L.count("skipped_asan_sampling"); return; }
             const int l = idx % lcat_count(), qq = (idx / lcat_count()) % qcat_count(n), sc = idx / (lcat_count() * qcat_count(n));
             if (q && !(sc == 0 || sc == 2 || sc == 4) ) { L.count("skipped_quick"); return; }
             if (q && (qq == 1 || qq >= 5)) { L.count("skipped_quick"); return; }
@@ -408,6 +425,7 @@ int main(int argc, char** argv)
         });
     }
     R.run("hint3", hint_count(3), [&](uint64_t idx, Local& L) {
+        if (asan_skip(idx)) { L.count("skipped_asan_sampling"); return; }
         if (q && idx % 4 != 0) { L.count("skipped_quick"); return; }
         run_herm_matrix(hint_get(3, idx), "hint3:" + num(idx), idx, idx % 16 == 0, L, "hint3#" + num(idx));
     });
@@ -433,6 +451,7 @@ int main(int argc, char** argv)
     if (!q)
     {
         R.run("sint4", sint_count(4, 3), [&](uint64_t idx, Local& L) {
+        if (asan_skip(idx)) { L.count("skipped_asan_sampling"); return; }
             run_real_matrix(sint_get(4, D3(), idx), "sint4:" + num(idx), idx, K_DENSE | (idx % 5 == 0 ? K_SHIFT : 0), L, "sint4#" + num(idx));
         });
         const int n = 8;
@@ -451,6 +470,7 @@ int main(int argc, char** argv)
     {
         // quick: every 27th matrix of sint4 (the complete family is in the thorough tier)
         R.run("sint4", sint_count(4, 3), [&](uint64_t idx, Local& L) {
+        if (asan_skip(idx)) { L.count("skipped_asan_sampling"); return; }
             if (idx % 27 != 0) { L.count("skipped_quick"); return; }
             run_real_matrix(sint_get(4, D3(), idx), "sint4:" + num(idx), idx, K_DENSE, L, "sint4#" + num(idx));
         });
